@@ -34,15 +34,18 @@ package template
 //@ func (*Registry).LineNumber
 //@   props C06 C19
 //@   pure
+//@   at call template.sourceOffset#0 assert[position-within-the-source-registered-for-that-template;C19] arg0 == r.sourceByTemplateName[templateName]
 //@   ensures[positive-or-unknown] result >= 0
 
 //@ func (*Registry).ColNumber
 //@   props C06 C19
 //@   pure
+//@   at call template.sourceOffset#0 assert[position-within-the-source-registered-for-that-template;C19] arg0 == r.sourceByTemplateName[templateName]
 
 //@ func (*Registry).Filename
 //@   props C06 C19
 //@   pure
+//@   ensures[file-registered-for-that-template;C19] haskey(r.fileByTemplateName, templateName) ==> result == r.fileByTemplateName[templateName]
 
 //@ func sourceOffset
 //@   props C06 C19
